@@ -51,6 +51,13 @@ pub struct Qcow2Dev<T> {
     need_flush: AtomicBool,
     flush_lock: AsyncMutex<()>,
 
+    // Serializes write-back of refcount meta. The dirty flag of a slice is
+    // cleared when its write is issued, so whoever flushes the refcount
+    // meta next can't see a write-back still in flight; holding this lock
+    // over every write-back makes flush_refcount() return only after all
+    // of them have completed.
+    refcount_wb_lock: AsyncMutex<()>,
+
     file: T,
     backing_file: Option<Box<Qcow2Dev<T>>>,
     pub info: Qcow2Info,
@@ -115,6 +122,7 @@ impl<T: Qcow2IoOps> Qcow2Dev<T> {
             new_cluster: AsyncRwLock::new(Default::default()),
             need_flush: AtomicBool::new(false),
             flush_lock: AsyncMutex::new(()),
+            refcount_wb_lock: AsyncMutex::new(()),
         };
 
         Ok(dev)
